@@ -618,6 +618,39 @@ pub fn case_relay(kind: &str, text: &str) -> Vec<Finding> {
             }
             return out;
         }
+        // two relayed lines waiting for the same receiver when its task runs next: one
+        // command with two targets reaching bob, and two commands in one segment
+        "PRIVMSG-both" | "PRIVMSG-twice" => {
+            if kind == "PRIVMSG-both" {
+                m!(w.send(0, &format!("PRIVMSG #c,bob :{}", text)));
+            } else {
+                w.write_raw(0, format!("PRIVMSG bob :{}\r\nNOTICE #c :{}\r\n", text, text).as_bytes());
+                m!(w.pump_socket(0));
+                m!(w.settle());
+            }
+            let ls = w.take_lines(1);
+            let parsed: Vec<Msg> = ls.iter().filter_map(|l| tokenize(l).ok()).collect();
+            let want: Vec<(&str, &str)> = if kind == "PRIVMSG-both" { vec![("PRIVMSG", "#c"), ("PRIVMSG", "bob")] } else { vec![("PRIVMSG", "bob"), ("NOTICE", "#c")] };
+            for (v, t) in want {
+                let n = parsed.iter().filter(|m| m.cmd == v && m.params == vec![t.to_string(), text.to_string()] && m.prefix.as_deref().map_or(false, |p| p.starts_with("ann!"))).count();
+                if n != 1 || parsed.len() != 2 {
+                    out.push(finding(&format!("relay:{}", kind), format!("receiver got {:?}: not exactly the two messages sent ({} {} {:?} seen {} times)", ls, v, t, text, n)));
+                    break;
+                }
+            }
+            for c in w.conns.iter() {
+                for l in c.raw.split(|b| *b == b'\n') {
+                    if l.is_empty() {
+                        continue;
+                    }
+                    if l[..l.len() - 1].contains(&b'\r') || l.last() != Some(&b'\r') {
+                        out.push(finding("relay:framing", format!("server line with stray CR or bare LF: {:?}", String::from_utf8_lossy(l))));
+                        break;
+                    }
+                }
+            }
+            return out;
+        }
         "NICK" => ("NICK ann2".to_string(), "NICK", vec!["ann2".into()]),
         "INVITE" => {
             m!(w.send(1, "PART #c"));
@@ -658,7 +691,7 @@ fn part_relay(max: u32) -> PartResult {
     let t0 = Instant::now();
     let mut r = PartResult::new("fun:relay", "E-FUN");
     let texts = all_strings(&['a', ' ', ':'], max);
-    let kinds = ["PRIVMSG", "NOTICE", "PRIVMSG-nick", "PRIVMSG-middle", "TOPIC", "PART", "KICK", "WALLOPS", "AWAY"];
+    let kinds = ["PRIVMSG", "NOTICE", "PRIVMSG-nick", "PRIVMSG-middle", "TOPIC", "PART", "KICK", "WALLOPS", "AWAY", "PRIVMSG-both", "PRIVMSG-twice"];
     let mut cases: Vec<(String, String)> = vec![];
     for k in kinds {
         for t in &texts {
